@@ -41,6 +41,17 @@ pub struct Op {
 pub struct Model {
     pub live: Vec<Coll>,
     pub has_released: bool,
+    /// stable identity of every live collection (parallel to `live`); a value that is the name of a
+    /// collection is held in the model as the token REF + id
+    pub ids: Vec<u32>,
+    pub next_id: u32,
+}
+
+/// a stored value that is the handle of collection <id> (real handle names are random)
+pub const REF: &str = "\u{1}h";
+
+fn token(id: u32) -> String {
+    format!("{}{}", REF, id)
 }
 
 pub struct Impl {
@@ -50,6 +61,8 @@ pub struct Impl {
     /// real names of the live handles, in creation order (parallel to Model::live)
     names: Vec<String>,
     released: Option<String>,
+    /// every handle this history created, live or released, with its stable id
+    known: Vec<(String, u32)>,
 }
 
 pub const LOOKALIKE: &str = "handle:AAAAAAAAAAAAAAAAAAAA";
@@ -71,7 +84,7 @@ impl C12 {
             max_len: 2,
             values: match tier {
                 // "0" and "false" matter: the script-implemented commands decide with truthiness internally
-                Tier::Quick => vec!["a".into(), "".into(), "b c".into(), "0".into()],
+                Tier::Quick => vec!["a".into(), "".into(), "b c".into()],
                 Tier::Thorough => vec!["a".into(), "".into(), "b c".into(), "0".into(), "false".into(), LOOKALIKE.into(), "é".into()],
             },
             keys: vec!["a".into(), "b c".into()],
@@ -139,6 +152,26 @@ impl Impl {
             _ => BTreeMap::new(),
         }
     }
+    /// a text as the model sees it: real handle names replaced by their tokens
+    fn to_model(&self, text: &str) -> String {
+        if !text.contains("handle:") {
+            return text.to_string();
+        }
+        let mut t = text.to_string();
+        for (name, id) in &self.known {
+            if t.contains(name.as_str()) {
+                t = t.replace(name.as_str(), &token(*id));
+            }
+        }
+        t
+    }
+    fn coll_to_model(&self, c: Coll) -> Coll {
+        match c {
+            Coll::Arr(v) => Coll::Arr(v.iter().map(|x| self.to_model(x)).collect()),
+            Coll::Map(m) => Coll::Map(m.iter().map(|(k, v)| (self.to_model(k), self.to_model(v))).collect()),
+            Coll::Set(v) => Coll::Set(v.iter().map(|x| self.to_model(x)).collect()),
+        }
+    }
     fn text(&self, h: H) -> String {
         match h {
             H::Live(i) => self.names[i].clone(),
@@ -199,6 +232,7 @@ impl Sys for C12 {
             state: HashMap::new(),
             names: vec![],
             released: None,
+            known: vec![],
         }
     }
     fn clone_impl(&self, s: &Impl) -> Impl {
@@ -208,6 +242,7 @@ impl Sys for C12 {
             state: s.state.clone(),
             names: s.names.clone(),
             released: s.released.clone(),
+            known: s.known.clone(),
         }
     }
     fn init_model(&self) -> Model {
@@ -264,6 +299,40 @@ impl Sys for C12 {
                     ops.push(op("array_push", sh, None, &[v]));
                 }
                 ops.push(op("array_contains", sh, None, &[v]));
+            }
+            // values and keys that are the handle of a live collection (itself or the other one)
+            if let H::Live(i) = h {
+                // quick tier: only references to the other collection; thorough also to itself
+                let mut refs: Vec<&str> = if self.slim { vec![] } else { vec!["@self"] };
+                if m.live.len() > 1 {
+                    refs.push("@other");
+                }
+                let _ = i;
+                for r in refs {
+                    if is_arr && len < self.max_len {
+                        ops.push(op("array_push", sh, None, &[r]));
+                    }
+                    if is_set && len < self.max_len && !self.slim {
+                        ops.push(op("set_put", sh, None, &[r]));
+                    }
+                    if is_map && len < self.max_len {
+                        ops.push(op("map_put", sh, None, &[r, "a"]));
+                        ops.push(op("map_put", sh, None, &["a", r]));
+                    }
+                    if r == "@other" {
+                        if is_arr {
+                            ops.push(op("array_contains", sh, None, &[r]));
+                        }
+                        if is_map {
+                            ops.push(op("map_get", sh, None, &[r]));
+                            ops.push(op("map_contains_key", sh, None, &[r]));
+                            ops.push(op("map_contains_value", sh, None, &[r]));
+                        }
+                        if is_set {
+                            ops.push(op("set_contains", sh, None, &[r]));
+                        }
+                    }
+                }
             }
             ops.push(op("array_pop", sh, None, &[]));
             let idxs: &[&str] = if self.slim { &["0", "1", "2", "x"] } else { &["0", "1", "2", "-1", "x"] };
@@ -369,18 +438,41 @@ impl Sys for C12 {
             if let Some(h2) = o.h2 {
                 args.push(s.text(h2));
             }
-            args.extend(o.args.iter().cloned());
+            let own = match o.h {
+                Some(H::Live(i)) => Some(i),
+                _ => None,
+            };
+            for a in &o.args {
+                match (a.as_str(), own) {
+                    ("@self", Some(i)) => args.push(s.names[i].clone()),
+                    ("@other", Some(i)) if s.names.len() > 1 => args.push(s.names[1 - i].clone()),
+                    _ => args.push(a.clone()),
+                }
+            }
         }
+        // the same arguments as the model sees them
+        let margs: Vec<String> = o
+            .args
+            .iter()
+            .map(|a| match (a.as_str(), o.h) {
+                ("@self", Some(H::Live(i))) => token(m.ids[i]),
+                ("@other", Some(H::Live(i))) if m.ids.len() > 1 => token(m.ids[1 - i]),
+                _ => a.clone(),
+            })
+            .collect();
         let before = s.table();
-        let got = s.call(o.cmd, &args);
+        let got = match s.call(o.cmd, &args) {
+            Out::Val(Some(x)) => Out::Val(Some(s.to_model(&x))),
+            other => other,
+        };
 
         // ---- the model
         let live_idx = match o.h {
             Some(H::Live(i)) => Some(i),
             _ => None,
         };
-        let a0 = o.args.first().cloned().unwrap_or_default();
-        let a1 = o.args.get(1).cloned().unwrap_or_default();
+        let a0 = margs.first().cloned().unwrap_or_default();
+        let a1 = margs.get(1).cloned().unwrap_or_default();
         let idx: Option<usize> = a0.parse::<usize>().ok();
         let b = |x: bool| Exp::Val(Some(x.to_string()));
         let t = || Exp::Val(Some("true".to_string()));
@@ -409,14 +501,15 @@ impl Sys for C12 {
             };
         }
         let mut release_slot: Option<usize> = None;
+        let mut release_recursive = false;
         let exp: Exp = match o.cmd {
-            "array" => Exp::New(Coll::Arr(o.args.clone())),
+            "array" => Exp::New(Coll::Arr(margs.clone())),
             "range" => match (a0.parse::<i64>(), a1.parse::<i64>()) {
                 (Ok(x), Ok(y)) if x <= y => Exp::New(Coll::Arr((x..y).map(|i| i.to_string()).collect())),
                 _ => Exp::Err,
             },
             "map" => Exp::New(Coll::Map(BTreeMap::new())),
-            "set_new" => Exp::New(Coll::Set(o.args.iter().cloned().collect())),
+            "set_new" => Exp::New(Coll::Set(margs.iter().cloned().collect())),
             "array_push" => arr!(|v: &mut Vec<String>| {
                 v.push(a0.clone());
                 t()
@@ -504,6 +597,7 @@ impl Sys for C12 {
             "release" => match live_idx {
                 Some(i) => {
                     release_slot = Some(i);
+                    release_recursive = o.args.first().map(|a| a == "-r").unwrap_or(false);
                     t()
                 }
                 None => Exp::Val(Some("false".into())),
@@ -535,14 +629,23 @@ impl Sys for C12 {
                 if let Exp::NewUnordered(_) = exp {
                     if let Some(StateValue::SubState(tbl)) = s.state.get_mut("handles") {
                         if let Some(StateValue::List(l)) = tbl.get_mut(h) {
+                            let known = s.known.clone();
                             l.sort_by_key(|x| match abstract_state_value(x) {
-                                SV::S(s) => s,
+                                SV::S(v) => {
+                                    let mut t = v.clone();
+                                    for (name, id) in &known {
+                                        if t == *name {
+                                            t = token(*id);
+                                        }
+                                    }
+                                    t
+                                }
                                 o => format!("{:?}", o),
                             });
                         }
                     }
                 }
-                let content = s.table().get(h).and_then(coll_of);
+                let content = s.table().get(h).and_then(coll_of).map(|c| s.coll_to_model(c));
                 let expected = match &exp {
                     Exp::New(c) => c.clone(),
                     Exp::NewUnordered(v) => {
@@ -571,14 +674,46 @@ impl Sys for C12 {
         }
         // ---- update handle bookkeeping
         if let Some(i) = release_slot {
-            let name = s.names.remove(i);
-            m.live.remove(i);
-            s.released = Some(name);
+            // plain release removes the collection; -r also releases every live collection that one of
+            // its items (array), members (set) or values (map) names, recursively
+            let mut doomed: Vec<u32> = vec![m.ids[i]];
+            if release_recursive {
+                let mut k = 0;
+                while k < doomed.len() {
+                    let id = doomed[k];
+                    k += 1;
+                    if let Some(pos) = m.ids.iter().position(|x| *x == id) {
+                        let referenced: Vec<String> = match &m.live[pos] {
+                            Coll::Arr(v) => v.clone(),
+                            Coll::Set(v) => v.iter().cloned().collect(),
+                            Coll::Map(mm) => mm.values().cloned().collect(),
+                        };
+                        for r in referenced {
+                            if let Some(n) = r.strip_prefix(REF).and_then(|x| x.parse::<u32>().ok()) {
+                                if m.ids.contains(&n) && !doomed.contains(&n) {
+                                    doomed.push(n);
+                                }
+                            }
+                        }
+                    }
+                }
+            }
+            s.released = Some(s.names[i].clone());
             m.has_released = true;
+            for id in doomed {
+                if let Some(pos) = m.ids.iter().position(|x| *x == id) {
+                    m.ids.remove(pos);
+                    m.live.remove(pos);
+                    s.names.remove(pos);
+                }
+            }
         }
         if let Some((h, c)) = new_handle {
+            s.known.push((h.clone(), m.next_id));
             s.names.push(h);
             m.live.push(c);
+            m.ids.push(m.next_id);
+            m.next_id += 1;
         }
         // ---- compare the whole handle table: every collection as in the model, nothing else
         let table = s.table();
@@ -589,7 +724,7 @@ impl Sys for C12 {
             ));
         }
         for (i, name) in s.names.iter().enumerate() {
-            match table.get(name).and_then(coll_of) {
+            match table.get(name).and_then(coll_of).map(|c| s.coll_to_model(c)) {
                 Some(c) if c == m.live[i] => (),
                 other => {
                     return Err(fail(
@@ -617,7 +752,25 @@ impl Sys for C12 {
         // Merging states that differ only there is an abstraction: it assumes that those tables do not
         // change what a collection command does, which is the subject of C04/C05, not of C12.
         // The for-in call stack is kept: a frame left there does change the next invocation.
-        let mut contents: Vec<Coll> = m.live.clone();
+        // references are written relative to the collection that holds them (exact for <= 2 live ones)
+        let rel = |own: u32, v: &str| -> String {
+            match v.strip_prefix(REF).and_then(|x| x.parse::<u32>().ok()) {
+                Some(n) if n == own => "@self".to_string(),
+                Some(n) if m.ids.contains(&n) => "@other".to_string(),
+                Some(_) => "@dead".to_string(),
+                None => v.to_string(),
+            }
+        };
+        let mut contents: Vec<Coll> = m
+            .live
+            .iter()
+            .zip(m.ids.iter())
+            .map(|(c, id)| match c {
+                Coll::Arr(v) => Coll::Arr(v.iter().map(|x| rel(*id, x)).collect()),
+                Coll::Set(v) => Coll::Set(v.iter().map(|x| rel(*id, x)).collect()),
+                Coll::Map(mm) => Coll::Map(mm.iter().map(|(k, v)| (rel(*id, k), rel(*id, v))).collect()),
+            })
+            .collect();
         contents.sort();
         let mut rest = abstract_state(&s.state);
         rest.remove("handles");
@@ -687,7 +840,7 @@ pub fn replay(case: &Value) -> Result<String, String> {
     Ok(out.join("\n"))
 }
 
-pub const RULE: &str = "explicit-state breadth-first search from the empty handle table: creators (array, range, map, set_new, set_from_array, array_concat, set_to_array, map_keys), every mutator and query of the statement, is_array/is_map/is_set, release and release -r, each given every live handle, a released handle, an unknown text and a text that looks like a handle, indexes {0,1,2,-1,x}, values {a, empty, 'b c', look-alike handle (, e-acute)}; growing operations are disabled at 2 live handles / length 2 so the space is finite and searched to a fixpoint. Each transition runs the real command, compares its output with the model (vector / map / set per live handle) and then the complete handle table (every collection equal to the model, no other entry) and the variable map (must stay empty). States are de-duplicated on the multiset of collection contents plus the implementation's remaining state. evaluations = transitions; distinct_nontrivial = distinct states";
+pub const RULE: &str = "explicit-state breadth-first search from the empty handle table: creators (array, range, map, set_new, set_from_array, array_concat, set_to_array, map_keys), every mutator and query of the statement, is_array/is_map/is_set, release and release -r, each given every live handle, a released handle, an unknown text and a text that looks like a handle, indexes {0,1,2,-1,x}, values {a, empty, 'b c', 0 (, false, look-alike handle, e-acute)} and the handle of the collection itself or of the other live collection as array item, set member, map key and map value (release -r follows such references); growing operations are disabled at 2 live handles / length 2 so the space is finite and searched to a fixpoint. Each transition runs the real command, compares its output with the model (vector / map / set per live handle) and then the complete handle table (every collection equal to the model, no other entry) and the variable map (must stay empty). States are de-duplicated on the multiset of collection contents plus the implementation's remaining state. evaluations = transitions; distinct_nontrivial = distinct states";
 pub const ASSUMPTIONS: &[&str] = &["listings whose order the documentation does not fix (map_keys, set_to_array) are compared as multisets and then sorted in place by the harness", "random handle names are opaque; a collision of two 20-character random names is outside the model", "operations are run through run_instruction with already-bound arguments"];
 pub const EXHAUSTIVE: bool = true;
 pub const WALL_CAP_S: (u64, u64) = (50, 1500);
